@@ -1,6 +1,7 @@
 """Generator of abstract Dezyne files (see dznjson.py for the representation) and wire encoders."""
 
-IDS = ['A', 'B', 'My', 'Ns', 'Sub', 'IApi', 'IHal', 'T', 'Result', 'x', '_p', 'a1', 'Acme', 'Toaster', 'Z9_']
+IDS = ['A', 'B', 'My', 'Ns', 'Sub', 'IApi', 'IHal', 'T', 'Result', 'x', '_p', 'a1', 'Acme', 'Toaster', 'Z9_',
+       'async', 'global', 'pass', 'from', 'lambda', 'None', 'True', 'class', 'import', 'int', 'self', '__init__']   # Python's reserved words are ordinary Dezyne identifiers
 TYPES = ['int', 'std::string', 'Sub::T', 'size_t', '::My::Data<int>', '', ' unsigned int ', '\n    struct { int a; }\n', 'long long\t', '  size_t', ' ']   # data values are kept exactly as written
 FIELDS = ['Ok', 'Fail', 'Error', 'x', '_']
 TYPES += ['a\\b', '"s"', "char'", 'x$y', 'std::map<int, std::string>', 'é*', 'hw::frame*', '/*c*/int']
@@ -58,7 +59,7 @@ def decl(rng, depth, maxdepth):
     if k < 0.60:
         return ['sys', ids(rng, 1, 1), [port(rng) for _ in range(rng.choice([0, 1, 2]))],
                 [[rng.choice(['c1', 'c2', 'inst']), ids(rng, 1, 3)] for _ in range(rng.choice([0, 1, 2]))],
-                [[[rng.choice(['api', 'p']), rng.choice([None, 'c1'])], [rng.choice(['hal', 'q']), rng.choice([None, 'c2'])]]
+                [[[rng.choice(['api', 'p', 'pass']), rng.choice([None, 'c1', 'from'])], [rng.choice(['hal', 'q', '*', '', 'a.b', 'q q']), rng.choice([None, 'c2', '*'])]]   # (`*` is Dezyne's wildcard end-point)
                  for _ in range(rng.choice([0, 1, 2]))]]
     if k < 0.70:
         return typedecl(rng)
